@@ -205,7 +205,7 @@ where
     let chunk = chunk.max(1);
     std::thread::scope(|s| {
         for _ in 0..ctx.threads {
-            s.spawn(|| {
+            std::thread::Builder::new().stack_size(256 << 20).spawn_scoped(s, || {
                 let mut acc = Acc::default();
                 loop {
                     let start = next.fetch_add(chunk, Ordering::Relaxed);
@@ -228,7 +228,7 @@ where
                     }
                 }
                 result.lock().unwrap().merge(acc);
-            });
+            }).expect("spawn worker");
         }
     });
     result.into_inner().unwrap()
